@@ -201,7 +201,7 @@ def make_bank(rng, cont, enc, paren_ok, export_src):
                       lemma=rng.random() < 0.5)
     k = rng.randint(1, 5)
     bank = []
-    sid = rng.choice([1, 1, 1, 4, 50])
+    sid = rng.choice([1, 1, 1, 4, 50, 0])
     for j in range(k):
         n = rng.choice([1, 2, 3, 4, 6]) if rng.random() < 0.6 \
             else rng.randint(1, 10)
